@@ -53,24 +53,34 @@ func H16a() {
 
 const vxC16Text = "permission is hereby granted free of charge to any person obtaining a copy of this software and associated documentation files to deal in the software without restriction including without limitation the rights to use copy modify merge publish distribute sublicense and sell copies of the software subject to the following conditions of this license"
 
+const vxC16Phrases = " gnu affero general public license do what the fuck you want to public license"
+
 // vxC16Battery is the native counterpart of H16a (the stub of the inner classifier exists only under
 // the engine): real known values, header and full-text names, inputs whose confidence falls on
 // both sides of several thresholds, includeHeaders on and off.
 func vxC16Battery() {
 	words := strings.Fields(vxC16Text)
 	for _, T := range []float64{0.5, 0.75, 0.8, 0.9} {
-		for _, name := range []string{"MIT", "MIT.header"} {
+		// forbidden names take the signature-phrase branch of MultipleMatch: their text (and every
+		// input) ends with the phrases forbiddenRegexps looks for, which the edits below leave alone
+		for _, name := range []string{"MIT", "MIT.header", "AGPL-3.0", "AGPL-3.0.header", "WTFPL"} {
 			l := &License{c: stringclassifier.New(T, Normalizers...), Threshold: T}
-			l.c.AddValue(name, normalizeText(vxC16Text))
+			l.c.AddValue(name, normalizeText(vxC16Text+vxC16Phrases))
 			for _, k := range []int{3, 4, 5, 6, 7, 8, 10, 20} {
 				w := append([]string(nil), words...)
-				for i := k - 1; i < len(w); i += k {
-					w[i] = "zzz"
+				var ins []string // insertions keep the token overlap (the inner pre-filter) and lower the edit confidence
+				for i := range w {
+					ins = append(ins, w[i])
+					if i%k == k-1 {
+						w[i] = "zzz"
+						ins = append(ins, "zzz", "yyy", "xxx")
+					}
 				}
-				in := strings.Join(w, " ")
-				for _, hdr := range []bool{true, false} {
-					for _, m := range l.MultipleMatch(in, hdr) {
-						vxAssert("returned-match-at-least-threshold", m.Confidence >= T)
+				for _, in := range []string{strings.Join(w, " ") + vxC16Phrases, strings.Join(ins, " ") + vxC16Phrases} {
+					for _, hdr := range []bool{true, false} {
+						for _, m := range l.MultipleMatch(in, hdr) {
+							vxAssert("returned-match-at-least-threshold", m.Confidence >= T)
+						}
 					}
 				}
 			}
